@@ -35,7 +35,21 @@ def column_domain(ty, D, prog=None):
     if ty.startswith("ConstPropagation<") or ty.startswith("ascent::lattice::constant_propagation::ConstPropagation<"):
         return [TS("Bottom"), TS("Constant", 0), TS("Constant", 1), TS("Top")]
     if ty.startswith("(") and ty.endswith(")"):
-        raise Unsupported("tuple-typed input column " + ty)
+        # tuple-typed column: product of the component domains (split at top-level commas)
+        inner, parts, depth, cur = ty[1:-1], [], 0, ""
+        for ch in inner:
+            if ch in "(<":
+                depth += 1
+            elif ch in ")>":
+                depth -= 1
+            if ch == "," and depth == 0:
+                parts.append(cur)
+                cur = ""
+            else:
+                cur += ch
+        if cur:
+            parts.append(cur)
+        return [tuple(t) for t in itertools.product(*[column_domain(p_, min(D, 2), prog) for p_ in parts])]
     raise Unsupported("input column type " + ty)
 
 
